@@ -65,52 +65,54 @@ var ctx = context.Background()
 // classifyBudget bounds the number of shrink runs per process.
 var classifyBudget = func() *atomic.Int64 { b := new(atomic.Int64); b.Store(6000); return b }()
 
-func opts(validation bool) []serix.Option {
+// opts: validation on/off plus, for top-level shapes that carry them, serix.WithTypeSettings.
+func opts(s *sergen.Shape, validation bool) []serix.Option {
+	var o []serix.Option
 	if validation {
-		return []serix.Option{serix.WithValidation()}
+		o = append(o, serix.WithValidation())
 	}
-	return nil
+	return append(o, sergen.TopOptions(s)...)
 }
 
-func safeEncode(api *serix.API, x any, validation bool) (b []byte, err error, pan any) {
+func safeEncode(api *serix.API, s *sergen.Shape, x any, validation bool) (b []byte, err error, pan any) {
 	defer func() {
 		if p := recover(); p != nil {
 			pan = p
 		}
 	}()
-	b, err = api.Encode(ctx, x, opts(validation)...)
+	b, err = api.Encode(ctx, x, opts(s, validation)...)
 	return
 }
 
-func safeDecode(api *serix.API, b []byte, dst any, validation bool) (n int, err error, pan any) {
+func safeDecode(api *serix.API, s *sergen.Shape, b []byte, dst any, validation bool) (n int, err error, pan any) {
 	defer func() {
 		if p := recover(); p != nil {
 			pan = p
 		}
 	}()
-	n, err = api.Decode(ctx, b, dst, opts(validation)...)
+	n, err = api.Decode(ctx, b, dst, opts(s, validation)...)
 	return
 }
 
-func safeJSONEncode(api *serix.API, x any, validation bool, viaMap bool) (b []byte, err error, pan any) {
+func safeJSONEncode(api *serix.API, s *sergen.Shape, x any, validation bool, viaMap bool) (b []byte, err error, pan any) {
 	defer func() {
 		if p := recover(); p != nil {
 			pan = p
 		}
 	}()
 	if viaMap {
-		m, e := api.MapEncode(ctx, x, opts(validation)...)
+		m, e := api.MapEncode(ctx, x, opts(s, validation)...)
 		if e != nil {
 			return nil, e, nil
 		}
 		b, err = json.Marshal(m)
 		return
 	}
-	b, err = api.JSONEncode(ctx, x, opts(validation)...)
+	b, err = api.JSONEncode(ctx, x, opts(s, validation)...)
 	return
 }
 
-func safeJSONDecode(api *serix.API, b []byte, dst any, validation bool, viaMap bool) (err error, pan any) {
+func safeJSONDecode(api *serix.API, s *sergen.Shape, b []byte, dst any, validation bool, viaMap bool) (err error, pan any) {
 	defer func() {
 		if p := recover(); p != nil {
 			pan = p
@@ -121,9 +123,9 @@ func safeJSONDecode(api *serix.API, b []byte, dst any, validation bool, viaMap b
 		if e := json.Unmarshal(b, &m); e != nil {
 			return e, nil
 		}
-		return api.MapDecode(ctx, m, dst, opts(validation)...), nil
+		return api.MapDecode(ctx, m, dst, opts(s, validation)...), nil
 	}
-	return api.JSONDecode(ctx, b, dst, opts(validation)...), nil
+	return api.JSONDecode(ctx, b, dst, opts(s, validation)...), nil
 }
 
 var digits = regexp.MustCompile(`[0-9]+`)
@@ -150,9 +152,13 @@ func check(st *stats, u *sergen.Universe, s *sergen.Shape, v *sergen.Val, valida
 	}
 	brng := rand.New(rand.NewSource(bseed))
 	x := sergen.Build(s, v, brng).Interface()
+	if countIt && s.Top != nil {
+		st.count("toplevel_with_type_settings_cases", 1)
+		st.dist("toplevel_option_kinds", fmt.Sprintf("%s/lp=%d/flag=%v,%v/rules=%v", s.Kind, s.Top.LP, s.Top.R.LexSet, s.Top.R.AutoOrder, s.Top.HasRules))
+	}
 
 	// ---------------------------------------------------------------- binary form
-	b, err, pan := safeEncode(u.API, x, validation)
+	b, err, pan := safeEncode(u.API, s, x, validation)
 	switch {
 	case pan != nil:
 		if countIt {
@@ -174,7 +180,7 @@ func check(st *stats, u *sergen.Universe, s *sergen.Shape, v *sergen.Val, valida
 			}
 		}
 		dst := sergen.New(s)
-		n, derr, dpan := safeDecode(u.API, b, dst.Interface(), validation)
+		n, derr, dpan := safeDecode(u.API, s, b, dst.Interface(), validation)
 		switch {
 		case dpan != nil:
 			add("bin", "decode-panic", "Encode accepted the value (%d bytes) but Decode panicked: %v", len(b), dpan)
@@ -189,7 +195,7 @@ func check(st *stats, u *sergen.Universe, s *sergen.Shape, v *sergen.Val, valida
 				add("bin", "value-mismatch", "decoded value differs from the original at %s", path)
 			} else {
 				// byte-level: Encode(Decode(Encode(x))) == Encode(x)
-				b2, err2, pan2 := safeEncode(u.API, dst.Elem().Interface(), validation)
+				b2, err2, pan2 := safeEncode(u.API, s, dst.Elem().Interface(), validation)
 				if pan2 != nil || err2 != nil {
 					add("bin", "reencode-fails", "re-encoding the decoded value failed: %v %v", err2, pan2)
 				} else if !bytes.Equal(b, b2) {
@@ -206,7 +212,7 @@ func check(st *stats, u *sergen.Universe, s *sergen.Shape, v *sergen.Val, valida
 			}
 			for i := 0; i < reps; i++ {
 				x2 := sergen.Build(s, v, rand.New(rand.NewSource(bseed+int64(i)+1))).Interface()
-				b2, err2, pan2 := safeEncode(u.API, x2, validation)
+				b2, err2, pan2 := safeEncode(u.API, s, x2, validation)
 				if hasMap {
 					st.count("determinism_reencodings_with_maps", 1)
 				}
@@ -225,7 +231,7 @@ func check(st *stats, u *sergen.Universe, s *sergen.Shape, v *sergen.Val, valida
 				clearContainers(s, dv)
 				dd := sergen.New(s)
 				dd.Elem().Set(sergen.Build(s, dv, nil))
-				n, derr, dpan := safeDecode(u.API, b, dd.Interface(), validation)
+				n, derr, dpan := safeDecode(u.API, s, b, dd.Interface(), validation)
 				st.count("dirty_destination_decodes", 1)
 				if dpan != nil || derr != nil {
 					add("bin", "dirty-decode-fails", "decoding into a pre-populated destination failed: %v %v", derr, dpan)
@@ -241,7 +247,7 @@ func check(st *stats, u *sergen.Universe, s *sergen.Shape, v *sergen.Val, valida
 	// ---------------------------------------------------------------- JSON / map form
 	if s.JSONable() && sergen.JSONSafe(s, v) {
 		viaMap := bseed&1 == 1
-		jb, err, pan := safeJSONEncode(u.API, x, validation, viaMap)
+		jb, err, pan := safeJSONEncode(u.API, s, x, validation, viaMap)
 		switch {
 		case pan != nil:
 			if countIt {
@@ -265,10 +271,18 @@ func check(st *stats, u *sergen.Universe, s *sergen.Shape, v *sergen.Val, valida
 				dst.Elem().Set(reflect.New(s.Elem.T))
 				target = dst.Elem().Interface()
 			}
-			derr, dpan := safeJSONDecode(u.API, jb, target, validation, viaMap)
+			derr, dpan := safeJSONDecode(u.API, s, jb, target, validation, viaMap)
 			switch {
 			case dpan != nil:
 				add("json", "decode-panic", "JSONEncode accepted the value but JSONDecode panicked: %v; document %s", dpan, short(string(jb), 200))
+			case derr != nil && s.Kind == sergen.Map && strings.Contains(derr.Error(), "can't map decode: unsupported type *"):
+				// MapDecode/JSONDecode have no path for a pointer to a map as the destination (only for
+				// struct-like targets), so a top-level map is encodable to the map form but has no decoder at
+				// all. Recorded as an observation: the check claims the JSON form at top level for structs only.
+				if countIt {
+					st.count("json_toplevel_map_has_no_decoder_observation", 1)
+					st.note("jsontopmap", "observation: MapEncode/JSONEncode accept a top-level map value, MapDecode/JSONDecode reject every *map destination (\"can't map decode: unsupported type *map[…]\"); the JSON round trip is demanded for top-level structs only")
+				}
 			case derr != nil:
 				add("json", "decode-error", "JSONEncode accepted the value but JSONDecode failed: %v; document %s", short(derr.Error(), 200), short(string(jb), 200))
 			default:
@@ -281,7 +295,7 @@ func check(st *stats, u *sergen.Universe, s *sergen.Shape, v *sergen.Val, valida
 				// observation only: JSON bytes under map iteration order
 				for i := 0; i < 3; i++ {
 					x2 := sergen.Build(s, v, rand.New(rand.NewSource(bseed+int64(i)+1))).Interface()
-					jb2, err2, pan2 := safeJSONEncode(u.API, x2, validation, viaMap)
+					jb2, err2, pan2 := safeJSONEncode(u.API, s, x2, validation, viaMap)
 					if err2 == nil && pan2 == nil && !bytes.Equal(jb, jb2) {
 						st.count("json_bytes_vary_with_map_order_observation", 1)
 						break
@@ -415,6 +429,9 @@ func signature(n node) string {
 	case sergen.Slice, sergen.Map:
 		if s.Elem.ZeroWidth() && (s.Kind == sergen.Slice || s.Key.ZeroWidth()) {
 			return pre + s.Kind.String() + "-of-zero-width"
+		}
+		if s.Kind == sergen.Map && s.R.LexSet && !s.R.AutoOrder {
+			return pre + "map-with-explicit-lexical-ordering-false"
 		}
 		return pre + s.Kind.String() + "-of-" + s.Elem.Kind.String()
 	}
@@ -574,6 +591,19 @@ func exercise(st *stats, u *sergen.Universe, si int, s *sergen.Shape, nVals int)
 	}
 	st.count("shapes_exercised", 1)
 	if nontrivial {
+		f, t, sf := orderingFlags(s, 0)
+		if f > 0 {
+			st.count("shapes_with_map_lexical_ordering_explicitly_false", 1)
+		}
+		if t > 0 {
+			st.count("shapes_with_map_lexical_ordering_explicitly_true", 1)
+		}
+		if sf > 0 {
+			st.count("shapes_with_slice_lexical_ordering_explicitly_false", 1)
+		}
+		if s.Top != nil {
+			st.count("toplevel_with_type_settings_shapes", 1)
+		}
 		st.dist("nontrivial", fmt.Sprintf("%016x", s.Hash()))
 		single, pairs := s.Features()
 		for _, f := range single {
@@ -609,3 +639,37 @@ func check0(st *stats, u *sergen.Universe, si int, s *sergen.Shape, v *sergen.Va
 }
 
 var _ = reflect.TypeOf
+
+// orderingFlags counts map nodes with an explicit lexical-ordering flag (false, true) and
+// slice/array nodes with an explicit false in a shape.
+func orderingFlags(s *sergen.Shape, depth int) (mapFalse, mapTrue, sliceFalse int) {
+	if depth > 10 {
+		return
+	}
+	add := func(c *sergen.Shape) {
+		a, b, d := orderingFlags(c, depth+1)
+		mapFalse, mapTrue, sliceFalse = mapFalse+a, mapTrue+b, sliceFalse+d
+	}
+	switch s.Kind {
+	case sergen.Map:
+		if s.R.LexSet && s.R.AutoOrder {
+			mapTrue++
+		} else if s.R.LexSet {
+			mapFalse++
+		}
+		add(s.Key)
+		add(s.Elem)
+	case sergen.Slice, sergen.Array:
+		if s.R.LexSet && !s.R.AutoOrder {
+			sliceFalse++
+		}
+		add(s.Elem)
+	case sergen.Ptr:
+		add(s.Elem)
+	case sergen.Struct:
+		for _, f := range s.Fields {
+			add(f.S)
+		}
+	}
+	return
+}
